@@ -180,7 +180,7 @@ fn run_case(case: &Value) -> Value {
                 };
                 let response = match resp["t"].as_str().unwrap() {
                     "value" => UplinkResponse::Value(body_bytes(resp["body"].as_i64().unwrap())),
-                    "supply" => UplinkResponse::Supply(Bytes::from(resp["body"].as_i64().unwrap().to_string())),
+                    "supply" => UplinkResponse::Supply(body_bytes(resp["body"].as_i64().unwrap())),
                     "synced" => UplinkResponse::Synced(uk),
                     _ => {
                         let b = &resp["body"];
